@@ -58,8 +58,10 @@ os_free(os_ep *o)
 }
 
 static int
-os_start(os_ep *o, int is_server, unsigned version, uint16_t suite, int keykind, int cauth)
+os_start(os_ep *o, int is_server, unsigned version, uint16_t suite, int keykind, int cauth, int chain_kind)
 {
+	size_t chn = 0, q;
+	const br_x509_certificate *chp = NULL;
 	unsigned char id[2];
 	const SSL_CIPHER *ci;
 	const unsigned char *p;
@@ -75,6 +77,7 @@ os_start(os_ep *o, int is_server, unsigned version, uint16_t suite, int keykind,
 	SSL_CTX_set_max_proto_version(o->ctx, (int)version);
 	SSL_CTX_set_options(o->ctx, SSL_OP_NO_TICKET);
 	SSL_CTX_set_session_cache_mode(o->ctx, SSL_SESS_CACHE_OFF);
+	SSL_CTX_set_mode(o->ctx, SSL_MODE_NO_AUTO_CHAIN);   /* send the configured chain, not one completed from the verification store */
 	o->ssl = SSL_new(o->ctx);
 	id[0] = (unsigned char)(suite >> 8); id[1] = (unsigned char)suite;
 	ci = SSL_CIPHER_find(o->ssl, id);
@@ -95,9 +98,17 @@ os_start(os_ep *o, int is_server, unsigned version, uint16_t suite, int keykind,
 			p = FX_srv_ecrsa_crt; crt = d2i_X509(NULL, &p, (long)FX_srv_ecrsa_crt_len);
 			p = FX_srv_ecrsa_key; pk = d2i_AutoPrivateKey(NULL, &p, (long)FX_srv_ecrsa_key_len);
 		}
+		/* the same chain shapes as the BearSSL server side of the pair (tp_chain_pick) */
+		chp = tp_chain_pick(1, keykind, 0, 0, chain_kind, &chn);
+		if (chn > 1) { X509_free(crt); p = chp[0].data; crt = d2i_X509(NULL, &p, (long)chp[0].data_len); }
 		if (!crt || !pk || SSL_use_certificate(o->ssl, crt) != 1 || SSL_use_PrivateKey(o->ssl, pk) != 1) {
 			fprintf(stderr, "openssl: cannot load fixture cert/key\n");
 			exit(2);
+		}
+		for (q = 1; q < chn; q ++) {
+			X509 *x; p = chp[q].data; x = d2i_X509(NULL, &p, (long)chp[q].data_len);
+			if (!x || SSL_add1_chain_cert(o->ssl, x) != 1) { fprintf(stderr, "openssl: cannot add chain certificate\n"); exit(2); }
+			X509_free(x);
 		}
 		X509_free(crt); EVP_PKEY_free(pk);
 		if (cauth) {
@@ -122,9 +133,16 @@ os_start(os_ep *o, int is_server, unsigned version, uint16_t suite, int keykind,
 				p = FX_cli_ec_crt; crt = d2i_X509(NULL, &p, (long)FX_cli_ec_crt_len);
 				p = FX_cli_ec_key; pk = d2i_AutoPrivateKey(NULL, &p, (long)FX_cli_ec_key_len);
 			}
+			chp = tp_chain_pick(0, 0, cauth, 0, chain_kind, &chn);
+			if (chn > 1) { X509_free(crt); p = chp[0].data; crt = d2i_X509(NULL, &p, (long)chp[0].data_len); }
 			if (!crt || !pk || SSL_use_certificate(o->ssl, crt) != 1 || SSL_use_PrivateKey(o->ssl, pk) != 1) {
 				fprintf(stderr, "openssl: cannot load client fixture cert/key\n");
 				exit(2);
+			}
+			for (q = 1; q < chn; q ++) {
+				X509 *x; p = chp[q].data; x = d2i_X509(NULL, &p, (long)chp[q].data_len);
+				if (!x || SSL_add1_chain_cert(o->ssl, x) != 1) { fprintf(stderr, "openssl: cannot add chain certificate\n"); exit(2); }
+				X509_free(x);
 			}
 			X509_free(crt); EVP_PKEY_free(pk);
 		}
@@ -199,7 +217,7 @@ main(int argc, char **argv)
 		for (v = 0x0301; v <= 0x0303; v ++) {
 			os_ep probe;
 			if (tp_suites[i].tls12only && v != 0x0303) continue;
-			if (os_start(&probe, 0, v, tp_suites[i].id, TP_KEY_RSA, 0)) {
+			if (os_start(&probe, 0, v, tp_suites[i].id, TP_KEY_RSA, 0, 0)) {
 				sv[nsv].s = &tp_suites[i]; sv[nsv].version = v; nsv ++;
 			} else if (worker == 0) {
 				vf_distinct("peer_lacks_suite", "%s", tp_suites[i].name);
@@ -213,7 +231,7 @@ main(int argc, char **argv)
 		vf_rng r;
 		const sv_pair *pv = &sv[(idx / 2) % nsv];
 		int b_is_client = (int)(idx & 1);
-		int keykind, layout, chunk, wpol, closer, cls;
+		int keykind, layout, chunk, wpol, closer, cls, schain, cchain;
 		tp_ep b;
 		os_ep o;
 		tp_cfg cfg;
@@ -269,7 +287,12 @@ main(int argc, char **argv)
 		/* a third of the sessions use client authentication (RSA or EC certificate) */
 		cauth = (int)vf_below(&r, 3) == 0 ? 1 + (int)vf_below(&r, 2) : 0;
 		if (b_is_client) cfg.client_auth = cauth; else cfg.client_auth = cauth ? 1 : 0;
-		if (!os_start(&o, b_is_client, pv->version, pv->s->id, keykind, cauth)) {
+		/* chain shapes on both sides: single certificate, leaf + intermediate, 21 kB leaf + intermediate, leaf + root;
+		   the client certificate with or without its intermediate */
+		schain = (int)(idx % 4); cchain = (int)((idx >> 2) & 1);
+		cfg.chain_kind = b_is_client ? cchain : schain;
+		vf_distinct("chain_shape", "client%d key%d s%d c%d cauth%d", b_is_client, keykind, schain, cchain, cauth);
+		if (!os_start(&o, b_is_client, pv->version, pv->s->id, keykind, cauth, b_is_client ? schain : cchain)) {
 			vf_stat("peer_config_refused", 1);
 			goto next;
 		}
@@ -505,6 +528,36 @@ main(int argc, char **argv)
 					TP_VIOL("interop:client-chain-not-validated", "session with client authentication completed although the server's validator did not accept a client chain");
 				} else vf_stat("bearssl_verified_ossl_client", 1);
 			}
+		}
+		/* chain shapes: the BearSSL validator was handed exactly the certificates OpenSSL was configured with; OpenSSL
+		   verified the chain the BearSSL server sent (SSL_VERIFY_PEER: the handshake would have failed otherwise) and
+		   holds as many certificates as BearSSL was configured with */
+		{
+			size_t en, q;
+			const br_x509_certificate *ech;
+			if (b_is_client) {
+				ech = tp_chain_pick(1, keykind, 0, 0, schain, &en);
+				if ((size_t)b.xw->n_start_cert != en) TP_VIOL("interop:chain-count", "the validator of the BearSSL client saw another number of certificates than OpenSSL sent");
+				else for (q = 0; q < en; q ++) if (b.xw->cert_len[q] != ech[q].data_len || b.xw->cert_hash[q] != vf_fnv(ech[q].data, ech[q].data_len, 0)) {
+					TP_VIOL("interop:chain-bytes-differ", "a certificate sent by OpenSSL reached the validator with other bytes"); break;
+				}
+				vf_stat("ossl_server_chains_compared", 1);
+			} else {
+				STACK_OF(X509) *pcs = SSL_get_peer_cert_chain(o.ssl);
+				ech = tp_chain_pick(1, keykind, 0, 0, schain, &en);
+				if (pcs == NULL || (size_t)sk_X509_num(pcs) != en) TP_VIOL("interop:chain-count", "OpenSSL received another number of certificates than the BearSSL server was configured with");
+				else for (q = 0; q < en; q ++) {
+					unsigned char *der = NULL; int dl = i2d_X509(sk_X509_value(pcs, (int)q), &der);
+					if (dl < 0 || (size_t)dl != ech[q].data_len || memcmp(der, ech[q].data, (size_t)dl) != 0) TP_VIOL("interop:chain-bytes-differ", "OpenSSL received a certificate with other bytes than configured");
+					OPENSSL_free(der);
+				}
+				vf_stat("bearssl_server_chains_compared", 1);
+				if (cauth) {
+					ech = tp_chain_pick(0, 0, cauth, 0, cchain, &en);
+					if ((size_t)b.xw->n_start_cert != en) TP_VIOL("interop:chain-count", "the validator of the BearSSL server saw another number of client certificates than OpenSSL sent");
+				}
+			}
+			vf_max("chain_certificates_max", (long long)en);
 		}
 		vf_stat("ossl_sessions_completed", 1);
 		vf_stat(b_is_client ? "ossl_as_server" : "ossl_as_client", 1);
